@@ -180,3 +180,120 @@ Proof.
 Qed.
 
 End S.
+
+(** ** C02: the abstraction of DoMove is Rules.make *)
+Section Refine.
+Variable t : tabs.
+
+
+Ltac board_eq Hl :=
+  apply board_ext; [rewrite ?put_length; reflexivity|];
+  let s := fresh "s" in let Hs := fresh "Hs" in
+  intros s Hs; atp;
+  repeat match goal with |- context [?x =? ?y] => destruct (N.eqb_spec x y) end;
+  subst; try reflexivity; try congruence; try lia.
+
+Lemma do_normal_refines p m :
+  WF t p -> ok_common p m -> ok_normal p m ->
+  abs (do_move_raw t p (code m)) = make (abs p) m.
+Proof.
+  intros W Hc Hn. pose proof (w_coh _ _ W) as C. pose proof (c_len _ _ C) as Hl.
+  pose proof (w_hmc _ _ W) as Hh.
+  destruct Hc as [Hf Ht Hpr Hpc Hcol]. destruct Hn as [Hty Htgt Hcap Hsingle Hdouble].
+  destruct (decode m) as (E1 & E2 & E3 & E4); try lia. { rewrite Hty. unfold NORMAL. lia. }
+  assert (Hne : mfrom m <> mto m) by (apply (tgt_ok_ne p m); [constructor; assumption|assumption]).
+  unfold do_move_raw. rewrite E1, E2, E3, Hty. cbn [N.eqb NORMAL].
+  rewrite (abs_turn t _ p W).
+  2:{ unfold do_normal_raw. destruct (negb _); [|destruct (_ =? PAWN); [destruct (_ =? 2)|]]; fr; reflexivity. }
+  2:{ unfold do_normal_raw. destruct (negb _); [|destruct (_ =? PAWN); [destruct (_ =? 2)|]]; fr; reflexivity. }
+  unfold make. cbn [abs brd stm cr ep hmc fmn]. rewrite Hty. cbn [N.eqb NORMAL PROMOTION ENPASSANT CASTLING Pos.eqb].
+  unfold type_of.
+  set (pc := at_ (i_board p) (mfrom m)) in *. set (tp := at_ (i_board p) (mto m)) in *.
+  unfold do_normal_raw. rewrite Hcol.
+  destruct (N.eqb_spec tp 0) as [Etp|Etp]; cbn [negb].
+  - destruct (N.eqb_spec (pc mod 8) PAWN) as [Epw|Epw]; cbn [andb orb].
+    + destruct (N.eqb_spec (sq_distance (mfrom m) (mto m)) 2) as [Ed|Ed].
+      * destruct (Hdouble Epw Etp Ed) as (Hr & He & Hemk & Hback & Hne1 & Hne2 & Hrk).
+        fr. rewrite Hr. cbn [N.eqb Pos.eqb]. f_equal. exact Hemk.
+      * pose proof (Hsingle Epw Etp Ed) as Hr.
+        fr. destruct (N.eqb_spec (zabs_diff (rank_of (mfrom m)) (rank_of (mto m))) 2); [contradiction|].
+        reflexivity.
+    + fr. f_equal. lia.
+  - fr. f_equal.
+    + board_eq Hl.
+    + destruct (N.eqb_spec (pc mod 8) PAWN) as [Epw|Epw]; cbn [andb]; [|reflexivity].
+      pose proof (Hcap Epw Etp) as Hr.
+      destruct (N.eqb_spec (zabs_diff (rank_of (mfrom m)) (rank_of (mto m))) 2); [contradiction|reflexivity].
+    + rewrite orb_true_r. reflexivity.
+Qed.
+
+Lemma do_promotion_refines p m :
+  WF t p -> ok_common p m -> ok_promotion p m ->
+  abs (do_move_raw t p (code m)) = make (abs p) m.
+Proof.
+  intros W Hc Hn. pose proof (w_coh _ _ W) as C. pose proof (c_len _ _ C) as Hl.
+  pose proof (w_hmc _ _ W) as Hh.
+  destruct Hc as [Hf Ht Hpr Hpc Hcol]. destruct Hn as [Hty Hpawn Htgt Hrank].
+  destruct (decode m) as (E1 & E2 & E3 & E4); try lia. { rewrite Hty. unfold PROMOTION. lia. }
+  assert (Hne : mfrom m <> mto m) by (apply (tgt_ok_ne p m); [constructor; assumption|assumption]).
+  unfold do_move_raw. rewrite E1, E2, E3, Hty. cbn [N.eqb PROMOTION Pos.eqb].
+  rewrite (abs_turn t _ p W).
+  2:{ unfold do_promotion_raw. destruct (negb _); fr; reflexivity. }
+  2:{ unfold do_promotion_raw. destruct (negb _); fr; reflexivity. }
+  unfold make. cbn [abs brd stm cr ep hmc fmn]. rewrite Hty. cbn [N.eqb NORMAL PROMOTION ENPASSANT CASTLING Pos.eqb].
+  unfold type_of, mk_piece.
+  assert (Epm : at_ (i_board p) (mfrom m) mod 8 = PAWN) by (rewrite Hpawn; apply mk_mod; unfold PAWN; lia).
+  rewrite Epm. cbn [N.eqb PAWN Pos.eqb orb andb].
+  unfold do_promotion_raw. rewrite Hcol, E4.
+  destruct (N.eqb_spec (zabs_diff (rank_of (mfrom m)) (rank_of (mto m))) 2); [contradiction|].
+  destruct (N.eqb_spec (at_ (i_board p) (mto m)) 0) as [Etp|Etp]; cbn [negb].
+  - fr. reflexivity.
+  - fr. f_equal. board_eq Hl.
+Qed.
+
+Lemma do_enpassant_refines p m :
+  WF t p -> ok_common p m -> ok_enpassant p m ->
+  abs (do_move_raw t p (code m)) = make (abs p) m.
+Proof.
+  intros W Hc Hn. pose proof (w_coh _ _ W) as C. pose proof (c_len _ _ C) as Hl.
+  pose proof (w_hmc _ _ W) as Hh.
+  destruct Hc as [Hf Ht Hpr Hpc Hcol]. destruct Hn as [Hty Hpawn Htgt Hep (Hcs & Hcsmk & Hcsf & Hcst) [Hcbf Hcbt] Hrank].
+  destruct (decode m) as (E1 & E2 & E3 & E4); try lia. { rewrite Hty. unfold ENPASSANT. lia. }
+  assert (Hne : mfrom m <> mto m) by (intro E; rewrite E in Hpc; congruence).
+  unfold do_move_raw. rewrite E1, E2, E3, Hty. cbn [N.eqb ENPASSANT Pos.eqb].
+  rewrite (abs_turn t _ p W).
+  2:{ unfold do_enpassant_raw. fr. reflexivity. }
+  2:{ unfold do_enpassant_raw. fr. reflexivity. }
+  unfold make. cbn [abs brd stm cr ep hmc fmn]. rewrite Hty. cbn [N.eqb NORMAL PROMOTION ENPASSANT CASTLING Pos.eqb].
+  unfold type_of, mk_piece.
+  assert (Epm : at_ (i_board p) (mfrom m) mod 8 = PAWN) by (rewrite Hpawn; apply mk_mod; unfold PAWN; lia).
+  rewrite Epm. cbn [N.eqb PAWN Pos.eqb orb andb].
+  unfold do_enpassant_raw. rewrite Hcol.
+  destruct (N.eqb_spec (zabs_diff (rank_of (mfrom m)) (rank_of (mto m))) 2); [contradiction|].
+  fr. rewrite <- Hcsmk.
+  rewrite Hcbf, Hcbt. cbn [N.lor]. rewrite N.ldiff_0_r. f_equal. board_eq Hl.
+Qed.
+
+Lemma do_castling_refines p m :
+  WF t p -> ok_common p m -> ok_castling p m ->
+  abs (do_move_raw t p (code m)) = make (abs p) m.
+Proof.
+  intros W Hc Hn. pose proof (w_coh _ _ W) as C. pose proof (c_len _ _ C) as Hl.
+  pose proof (w_hmc _ _ W) as Hh.
+  destruct Hc as [Hf Ht Hpr Hpc Hcol]. destruct Hn as [Hty (rf & rt & Hsh & Hk & Hr & Hte & Hrte)].
+  destruct (decode m) as (E1 & E2 & E3 & E4); try lia. { rewrite Hty. unfold CASTLING. lia. }
+  destruct (castle_info_shape _ _ _ _ _ Hsh) as (Eci & Elost & _ & _ & Hrf & Hrt & N1 & N2 & N3 & N4 & N5 & N6 & Ercs).
+  unfold do_move_raw. rewrite E1, E2, E3, Hty. cbn [N.eqb CASTLING Pos.eqb]. rewrite Eci.
+  rewrite (abs_turn t _ p W).
+  2:{ unfold do_castling_raw. fr. reflexivity. }
+  2:{ unfold do_castling_raw. fr. reflexivity. }
+  unfold make. cbn [abs brd stm cr ep hmc fmn]. rewrite Hty. cbn [N.eqb NORMAL PROMOTION ENPASSANT CASTLING Pos.eqb].
+  unfold type_of, mk_piece. rewrite Ercs.
+  assert (Ekm : at_ (i_board p) (mfrom m) mod 8 = KING) by (rewrite Hk; apply mk_mod; unfold KING; lia).
+  rewrite Ekm. cbn [N.eqb KING PAWN Pos.eqb orb andb]. rewrite Hte. cbn [N.eqb negb].
+  unfold do_castling_raw. fr. fold (lost_by (mfrom m) (mto m)). rewrite Elost.
+  f_equal.
+  - rewrite <- Hr. board_eq Hl.
+  - lia.
+Qed.
+End Refine.
